@@ -1152,11 +1152,13 @@ func c16Range(lo, hi int64) []int64 {
 
 func c16Schedules(t *testing.T, c *hx.Collector) {
 	thorough := hx.Tier() == "thorough"
+	ntCap := 6 // distinct non-trivial keys registered per configuration
 	periods, maxBN, maxPN := []int64{1, 2, 3, 5}, int64(4), int64(4)
 	phases := []int64{0, c16Ms - 1}
 	inits := []int64{0, 7 * c16Ms, 3*c16Ms + c16Ms/2, 1559021720000000000}
 	if thorough {
-		periods, maxBN, maxPN = []int64{1, 2, 3, 4, 5, 7, 10}, 6, 6
+		periods, maxBN, maxPN = []int64{1, 2, 3, 4, 5, 7, 10}, 8, 8
+		ntCap = 3
 		phases = []int64{0, 1, c16Ms / 2, c16Ms - 1}
 		inits = append(inits, 1559021720000000000+123456789)
 	}
@@ -1174,7 +1176,7 @@ tdposBox:
 								continue
 							}
 							k := c16TdposCase{Period: p, BlockNum: bn, ProposerNum: pn, Alternate: alt, Term: ti, InitNs: init, Phases: phases, Accept: true, AcceptAll: thorough}
-							o := c16NewObs(6)
+							o := c16NewObs(ntCap)
 							f := c16RunTdpos(k, o)
 							agg.add(c, o)
 							if samples < 2 && p == 3 && bn == 2 && pn == 3 {
@@ -1220,7 +1222,7 @@ xpoaBox:
 						continue
 					}
 					k := c16XpoaCase{Period: p, BlockNum: bn, N: n, StartMs: st, Phases: phases, Accept: true}
-					o := c16NewObs(6)
+					o := c16NewObs(ntCap)
 					f := c16RunXpoa(k, o)
 					agg.add(c, o)
 					if p == 2 && bn == 2 && n == 3 && st == 0 {
